@@ -408,6 +408,9 @@ func init() {
 				if (p.Op == "pull" || p.Op == "merge") && rng.Intn(3) == 0 {
 					p.Shadow = true
 				}
+				if p.Op != "merge" && i%6 == 4 {
+					p.H2 = true // the exchange runs over HTTP/2 on TLS
+				}
 				l.Add(p.Op, p, 0)
 			}
 			return l.Cases
